@@ -344,9 +344,6 @@ ERROR:
 
 int reformat_settings_msa(struct msa *msa, int rename, int unalign)
 {
-        for (int i = 0 ;i < msa->numseq;i++){
-                        msa->nsip[i] = i;
-        }
         if(rename){
                 for (int i = 0 ;i < msa->numseq;i++){
                         snprintf(msa->sequences[i]->name, 128, "SEQ%d", i+1);
